@@ -166,6 +166,17 @@ pub fn handle(op: &str, a: &[&str]) -> Option<String> {
     };
     match (op, a) {
         ("c12-dwarf", [e, secs]) => Some(c12_dwarf(endian(e)?, &parse_sections(secs)?)),
+        // debugging aid: both dumps on stderr
+        ("c12-show", [e, secs]) => {
+            let e = endian(e)?;
+            let secs_a = parse_sections(secs)?;
+            eprintln!("--- input\n{}", dump::dump(&load(&secs_a, e)).map(|d| d.join("\n")).unwrap_or_else(|x| x));
+            match convert_once(&secs_a, e) {
+                Ok(b) => eprintln!("--- output\n{}", dump::dump(&load(&b, e)).map(|d| d.join("\n")).unwrap_or_else(|x| x)),
+                Err(x) => eprintln!("--- convert failed: {x}"),
+            }
+            Some("ok shown".into())
+        }
         ("c12-frame", [e, kind, asz, h]) => Some(c12_frame(endian(e)?, *kind == "eh", asz.parse().ok()?, &unhex(h)?)),
         _ => None,
     }
@@ -502,6 +513,30 @@ fn rand_line_prog(rng: &mut Rng) -> Vec<u8> {
                 p.extend_from_slice(&[0, 9, 2]);
                 p.extend_from_slice(&(0x2000u64 * (s + 1) + 0x800 + rng.below(0x100)).to_le_bytes());
                 p.push(1);
+            }
+            if rng.chance(1, 25) {
+                // mid-sequence set_address that the reader treats as a tombstone without being
+                // the all-ones value: a lower address than the current one (what gold leaves for
+                // discarded code), 0, or all-ones - 1; the rows up to the next set_address are
+                // dropped by the reader and the conversion must not bring them back
+                p.extend_from_slice(&[0, 9, 2]);
+                let a = match rng.below(4) {
+                    0 => 0,
+                    1 => u64::MAX - 1,
+                    2 => 0x2000u64 * (s + 1) - 0x10,
+                    _ => 0x2000u64 * (s + 1) + rng.below(0x40),
+                };
+                p.extend_from_slice(&a.to_le_bytes());
+                p.push(1);
+                if rng.chance(1, 2) {
+                    p.extend_from_slice(&[2, 4, 1]);
+                }
+                if rng.chance(1, 2) {
+                    // and a later valid address
+                    p.extend_from_slice(&[0, 9, 2]);
+                    p.extend_from_slice(&(0x2000u64 * (s + 1) + 0x1000 + rng.below(0x100)).to_le_bytes());
+                    p.push(1);
+                }
             }
         }
         p.push(1);
